@@ -58,6 +58,7 @@ def experiments(thorough):
             ('H2/import 2 clients, holder asks for out-event', 'h2i', [2, 1, 0, 2], 1, 2),
             ('H2/import 2 clients + environment events', 'h2i', [2, 1, 1, 0], 1, 3),
             ('H2/import 2 clients + environment events, asks', 'h2i', [2, 1, 1, 2], 0, 2),
+            ('H2/bare interface (one out-event) 2 clients, asks', 'h2b', [2, 1, 0, 2], 1, 2),
         ]
     else:
         for mode in range(8):
@@ -75,6 +76,8 @@ def experiments(thorough):
             ('H2/import 2 clients + 1 environment event, asks', 'h2i', [2, 1, 1, 2], 1, 3),
             ('H2/import 2 clients + environment events, bound 2', 'h2i', [2, 1, 1, 0], 2, 4),
             ('H2/import 3 clients, asks', 'h2i', [3, 1, 0, 2], 1, 4),
+            ('H2/bare interface (one out-event) 2 clients, asks', 'h2b', [2, 1, 0, 2], 2, 3),
+            ('H2/bare interface 2 clients + environment events', 'h2b', [2, 1, 1, 0], 1, 3),
         ]
     return exps
 
@@ -177,13 +180,16 @@ def tsan_pass(ctx, src, thorough):
                           {'harness': which + '_tsan', 'args': args})
 
 
-def compile_all(src, src_import=None):
+def compile_all(src, src_import=None, src_bare=None):
     specs = {'h1': (src, ['h1.cc', 'sched_interpose.cc'], 'sched'), 'h2': (src, ['h2.cc', 'sched_interpose.cc'], 'sched'),
              'h1_tsan': (src, ['h1.cc', 'sched_free.cc'], 'tsan'), 'h2_tsan': (src, ['h2.cc', 'sched_free.cc'], 'tsan')}
     if src_import:
         # the same multi-client harness around a shell that IMPORTS its facilities
         specs['h2i'] = (src_import, ['h2.cc', 'sched_interpose.cc'], 'sched')
         specs['h2i_tsan'] = (src_import, ['h2.cc', 'sched_free.cc'], 'tsan')
+    if src_bare:
+        # ... and around a multi-client interface that has nothing but claim, release and ONE out-event
+        specs['h2b'] = (src_bare, ['h2.cc', 'sched_interpose.cc'], 'sched')
     bins = {k: S.Binary(s_, mains, mode) for k, (s_, mains, mode) in specs.items()}
     with concurrent.futures.ThreadPoolExecutor(4) as pool:
         list(pool.map(lambda b: b.__enter__(), bins.values()))
@@ -193,11 +199,14 @@ def compile_all(src, src_import=None):
 def judge(case):
     which = case['harness']
     delta = dict(case.get('model_delta') or {})
+    if which.startswith('h2b'):
+        delta['mcmenu'] = 'bare'
     if which.startswith('h2i'):
         delta['fac'] = 'import'
     src = S.sources(S.mc_case(delta))
     mains = {'h1': ['h1.cc', 'sched_interpose.cc'], 'h2': ['h2.cc', 'sched_interpose.cc'],
              'h2i': ['h2.cc', 'sched_interpose.cc'], 'h2i_tsan': ['h2.cc', 'sched_free.cc'],
+             'h2b': ['h2.cc', 'sched_interpose.cc'],
              'h1_tsan': ['h1.cc', 'sched_free.cc'], 'h2_tsan': ['h2.cc', 'sched_free.cc']}[which]
     with S.Binary(src, mains, 'tsan' if which.endswith('tsan') else 'sched') as binary:
         if binary.exe is None:
@@ -219,7 +228,7 @@ def judge(case):
 
 def explore(ctx):
     src = S.sources(S.mc_case())
-    bins = compile_all(src, S.sources(S.mc_case({'fac': 'import'})))
+    bins = compile_all(src, S.sources(S.mc_case({'fac': 'import'})), S.sources(S.mc_case({'mcmenu': 'bare'})))
     try:
         for key, binary in bins.items():
             if binary.exe is None:
